@@ -55,6 +55,34 @@ var prop = vh.Define("C04", "wellformed", func(c Case, r *vh.R) {
 	var n int64
 	var err error
 	var out []byte
+	if s.Version == "b1" && s.Primary == "" {
+		// b1 carries the primary URL in its header: a Bundle value without one cannot be written
+		// as b1. The property speaks about what is emitted WITHOUT ERROR, so a refusal in any
+		// form - including the nil dereference of the repository at the pinned commit - is fine;
+		// what must not happen is a nil error for a file that is not a well-formed b1 bundle.
+		r.Class("b1-without-primary-url")
+		refused := false
+		func() {
+			defer func() {
+				if recover() != nil {
+					refused = true
+				}
+			}()
+			var buf bytes.Buffer
+			n, err = b.WriteTo(&buf)
+			out = buf.Bytes()
+		}()
+		if refused || err != nil {
+			r.Class("refused")
+			return
+		}
+		if _, serr := refbundle.Strict(out); serr != nil {
+			r.Failf("not-wellformed", "WriteTo returned no error for a b1 bundle without a primary URL, and the file is not a well-formed b1 bundle: %v", serr)
+		} else if n != int64(len(out)) {
+			r.Failf("count", "WriteTo returned %d but the destination received %d bytes", n, len(out))
+		}
+		return
+	}
 	switch c.Sink {
 	case "plain":
 		sk := &plainSink{}
@@ -217,6 +245,35 @@ func TestAligned(t *testing.T) {
 		}
 	}
 	vh.Exhaustive("wellformed", fmt.Sprintf("aligned sizes: responses section / index+responses / whole file ending exactly at, one below and one above a multiple of 512, 4 KiB, 32 KiB, 64 KiB, 128 KiB, versions b1/b2, four kinds of destination: %d bundles", n))
+}
+
+// TestOptionalParts: every combination of version x primary URL present / absent x manifest
+// present / absent x signatures section present / absent x 0..2 exchanges: the optional parts
+// of one version are mandatory or unsupported in the other, and a guard written for one
+// version must not let the other emit a malformed file.
+func TestOptionalParts(t *testing.T) {
+	n := 0
+	exs := []bundlekit.ExSpec{
+		{URL: "https://a.example/a", Status: 200, Headers: []gen.HeaderKV{{Name: "Content-Type", Values: []string{"text/plain"}}}, BodyLen: 10, BodyTag: 1},
+		{URL: "https://a.example/b", Status: 404, Headers: []gen.HeaderKV{{Name: "Content-Type", Values: []string{"text/html"}}}, BodyLen: 3, BodyTag: 2}}
+	for _, ver := range []string{"b1", "b2"} {
+		for _, primary := range []string{"", "https://a.example/a", "https://elsewhere.example/"} {
+			for _, manifest := range []string{"", "https://a.example/manifest.json"} {
+				for _, sigs := range []*bundlekit.SigSpec{nil, {}} {
+					for nex := 0; nex <= 2; nex++ {
+						for _, sink := range []string{"buffer", "plain", "readerfrom"} {
+							s := bundlekit.Spec{Version: ver, Primary: primary, Manifest: manifest, Sigs: sigs, Exchanges: append([]bundlekit.ExSpec{}, exs[:nex]...)}
+							n++
+							if !prop.One(t, Case{Spec: s, Sink: sink}) {
+								return
+							}
+						}
+					}
+				}
+			}
+		}
+	}
+	vh.Exhaustive("wellformed", fmt.Sprintf("optional parts: versions b1/b2 x primary URL absent / an exchange's / foreign x manifest absent / present x signatures section absent / empty x 0..2 exchanges x three kinds of destination: %d bundles", n))
 }
 
 // ---- CountingWriter model ------------------------------------------------------------------
